@@ -4,6 +4,7 @@ import (
 	"bytes"
 	"context"
 	"math"
+	"sync"
 	"time"
 
 	"github.com/pkg/errors"
@@ -27,6 +28,8 @@ type TempPool struct {
 	cleanRemovedNewOperationsDeep     int
 	cleanRemovedProposalDeep          int
 	cleanRemovedBallotDeep            int
+	setProposalLock                   sync.Mutex
+	setBallotLock                     sync.Mutex
 }
 
 func NewTempPool(
@@ -171,6 +174,11 @@ func (db *TempPool) SetProposal(pr base.ProposalSignFact) (bool, error) {
 	}
 
 	key := leveldbProposalKey(pr.Fact().Hash())
+
+	// NOTE exists and put should be one step; without lock, the concurrent
+	// callers with the same fact can pass exists together.
+	db.setProposalLock.Lock()
+	defer db.setProposalLock.Unlock()
 
 	switch found, err := pst.Exists(key); {
 	case err != nil:
@@ -784,6 +792,12 @@ func (db *TempPool) SetBallot(bl base.Ballot) (bool, error) {
 	key := leveldbBallotKey(bl.Point(), isaac.IsSuffrageConfirmBallotFact(bl.SignFact().Fact()))
 
 	var blb []byte
+
+	// NOTE exists and put should be one step; without lock, the concurrent
+	// callers with the same point can pass exists together and the later put
+	// overwrites the first ballot.
+	db.setBallotLock.Lock()
+	defer db.setBallotLock.Unlock()
 
 	switch found, err := pst.Exists(key); {
 	case err != nil:
